@@ -127,6 +127,26 @@ theorem laws_unique (kind : Kind) (s : K) (cs : List (Cpt K)) (x y : Ix → K) (
     ∀ i, i ≠ node 0 → x i = y i :=
   mna_unique kind s cs x y hns ((mna_iff_laws kind s cs x hwf).mpr hx) ((mna_iff_laws kind s cs y hwf).mpr hy)
 
+/-! ### Opamp form (`Ename Np Nm opamp Ncp Ncm Ad Ac Ro`, expanded by `Eopamp._expand`) -/
+
+/-- **opamp_expand_law**: the expansion of an opamp with output resistance Ro — a VCVS from a
+    fresh internal node `o` plus Ro from `o` to the output node — obeys the documented amplifier
+    relation at its terminals: V(Np) − V(Nm) = Ad·(Vcp − Vcm) + Ac·(Vcp + Vcm)/2 + Ro·J, where J is the
+    current flowing into the output terminal (−J is delivered to the circuit), whenever KCL holds at
+    the internal node (to which nothing else is attached) and the VCVS law holds. -/
+theorem opamp_expand_law (kind : Kind) (s : K) (x : Ix → K) (o n1 n2 ncp ncm m : Nat) (Ad Ac Ro : K)
+    (hRo : Ro ≠ 0) (ho1 : o ≠ n1) (ho2 : o ≠ n2)
+    (hkcl : lsum ([Cpt.E o n2 ncp ncm m Ad Ac, Cpt.R o n1 Ro].map (outflow kind s x o)) = 0)
+    (hlaw : ∀ p ∈ laws kind s x (Cpt.E o n2 ncp ncm m Ad Ac), p.2 = 0) :
+    vd x n1 n2 = Ad * vd x ncp ncm + Ac * ((volt x ncp + volt x ncm) / 2) + Ro * x (br m) := by
+  have hE := hlaw (m, vd x o n2 - (Ad * vd x ncp ncm + Ac * ((volt x ncp + volt x ncm) / 2))) (by simp [laws])
+  simp only [List.map_cons, List.map_nil, lsum, outflow, twoTerm, if_true, ho1, ho2, if_false,
+    (Ne.symm ho1), (Ne.symm ho2)] at hkcl
+  simp only [vd] at hE hkcl ⊢
+  simp at hkcl
+  field_simp at hkcl
+  grind
+
 /-! ### Non-vacuity: a concrete circuit (V1 1 0 6; R1 1 2 3; L1 2 0 2 with i0 = 1, ivp at s = 2) -/
 
 def exCkt : List (Cpt ℚ) := [.V 1 0 0 3, .R 1 2 3, .Ind 2 0 1 2 (some 1) []]
